@@ -231,5 +231,10 @@ def run(chk, ctx) -> None:
     from .cover import board_rows, showdown_offer_flag
     board_rows(chk, ctx, 'C14.indexing')
     showdown_offer_flag(chk, ctx)
+    # which board the next cards go to: the first board still owed cards (with several boards a street may be dealt in pieces)
+    from .c10 import _verifiers
+    from .helpers import Refile
+    _verifiers(Refile(chk, {'C10.verifiers': 'C14.indexing'},
+                      only=lambda r, c: c in ('State.board_dealing_count', 'State.verify_board_dealing')), ctx)
     chk.floor('C14.once', 7)
     chk.floor('C14.count_checked', 3)
